@@ -1,6 +1,7 @@
 import Traph
 import Proofs.AutoCreate
 import Proofs.RuleInstallCor
+import Proofs.DerivedOps
 /-! C06 — automatic creation follows the rules. The decision ladder of `__add_page` for an arbitrary rule table
     (`C06_ladder`): nothing is created when the longest candidate is not longer than the existing prefix
     (`C06_covered_creates_nothing`, `C06_post_no_creation`); otherwise one webentity is created and reported,
@@ -129,5 +130,10 @@ theorem C06_rule_install_others {s : State} {t : T} (h : Shape s t) (anchor : By
     (s.addRule anchor r true).1.retrieveWebentity q = s.retrieveWebentity q ∧
     (s.addRule anchor r true).1.retrievePrefix q = s.retrievePrefix q :=
   Traph.C06_rule_install_others h anchor r rp hok q hq
+
+/-- `add_webentity_creation_rule(anchor, pattern, write_in_trie=False)` (what the constructor does on reopening): the
+    rule goes to RAM and nothing else changes — no flag, no page re-evaluated, nothing reported -/
+theorem C06_rule_ram_only (s : State) (a : Bytes) (r : Rule) :
+    s.addRule a r false = ({ s with rules := dictSet s.rules a r }, .ok {}) := Traph.addRule_ram s a r
 
 end Traph.Props
